@@ -1324,8 +1324,21 @@ func (h *c04Hist) genOp(witness bool) {
 		n := 2 + rg.Intn(2)
 		var data []byte
 		total := big.NewInt(0)
+		// every fourth multicall repeats its previous crossChainCall BYTE FOR BYTE: the packet contract stamps both with
+		// its current counter, so the two sends carry the same sequence and the same commitment (the second must fail)
+		repeat := rg.Intn(4) == 0
+		var lastRec []byte
+		var lastVal *big.Int
+		var lastTags []string
 		for i := 0; i < n; i++ {
 			must := rg.Intn(4) != 0
+			if repeat && lastRec != nil {
+				h.pendingTags = append(h.pendingTags, lastTags...)
+				total.Add(total, lastVal)
+				data = append(data, lastRec...)
+				h.r.Count("multi.identical-send-repeated")
+				continue
+			}
 			switch rg.Intn(6) {
 			case 0: // look-alike log, forged packet
 				payload := append(w.sentTopic.Bytes(), h.sentLogData(h.randomForgedPacket())...)
@@ -1335,7 +1348,11 @@ func (h *c04Hist) genOp(witness bool) {
 				d, val := w.ccPack(snd)
 				h.pendingTags = append(h.pendingTags, snd.tags...)
 				total.Add(total, val)
-				data = append(data, c04Record(endpointcontract.EndpointContractAddress, must, val, d)...)
+				rec := c04Record(endpointcontract.EndpointContractAddress, must, val, d)
+				data = append(data, rec...)
+				if repeat {
+					lastRec, lastVal, lastTags = rec, val, snd.tags
+				}
 			}
 		}
 		h.doTx("multi", w.multi, total, data)
